@@ -25,13 +25,19 @@ def decide(t, env, al=None):
         s2 = S(t)
         if s2 in env:
             return env[s2]
-    if "c" in t and k not in ("cond",):
+    if "c" in t and k not in ("cond",) and not isinstance(t["c"], dict):
         try:
             return int(t["c"])
         except (TypeError, ValueError):
             pass
     if k == "cast" or k == "defarg":
         return decide(t["e"], env, al)
+    if k == "cond":
+        c = decide(t["c"], env, al)
+        if c is None:
+            a, b = decide(t["a"], env, al), decide(t["b"], env, al)
+            return a if a is not None and a == b else None
+        return decide(t["a"] if c else t["b"], env, al)
     if k == "un":
         v = decide(t["e"], env, al)
         if v is None:
